@@ -87,6 +87,11 @@ Section Char.
     fold_left (idx_step Z.eqb from to) (map (fun kv => u_val (snd kv)) L) idx.
   Proof. intros. rewrite fold_left_map. reflexivity. Qed.
 
+  Lemma idx71_fold_is : forall (L : list (k2 * del_rec)) idx,
+    fold_left (idx71_step from to) L idx =
+    fold_left (idx_step Z.eqb from to) (map (fun kv => d_val (snd kv)) L) idx.
+  Proof. intros. rewrite fold_left_map. reflexivity. Qed.
+
   Lemma idx3x_fold_is : forall (L : list (k3 * red_rec)) idx,
     fold_left (idx3x_step from to) L idx =
     fold_left (idx_step k2_eqb from to) (map (fun kv => (r_src (snd kv), r_dst (snd kv))) L) idx.
@@ -108,6 +113,50 @@ Section Char.
   Proof.
     intros. rewrite fold_left_concat, fold_left_map. apply fold_left_ext_in. intros acc kv _.
     unfold redq_step. rewrite fold_left_map. reflexivity.
+  Qed.
+
+  (* the unbonding-id index writes, as one list *)
+  Definition wstep (m : list (Z * ukey)) (x : Z * ukey) := sset Z.eqb (fst x) (snd x) m.
+
+  Lemma unb_u_fold_is : forall (L : list (k2 * ubd_rec)) m,
+    fold_left (unb_u_step to) L m =
+    fold_left wstep (concat (map (fun kv : k2 * ubd_rec =>
+       map (fun e => (ue_id e, UKubd to (u_val (snd kv)))) (u_entries (snd kv))) L)) m.
+  Proof.
+    intros. rewrite fold_left_concat, fold_left_map. apply fold_left_ext_in. intros acc kv _.
+    unfold unb_u_step. rewrite fold_left_map. reflexivity.
+  Qed.
+
+  Lemma unb_r_fold_is : forall (L : list (k3 * red_rec)) m,
+    fold_left (unb_r_step to) L m =
+    fold_left wstep (concat (map (fun kv : k3 * red_rec =>
+       map (fun e => (re_id e, UKred to (r_src (snd kv)) (r_dst (snd kv)))) (r_entries (snd kv))) L)) m.
+  Proof.
+    intros. rewrite fold_left_concat, fold_left_map. apply fold_left_ext_in. intros acc kv _.
+    unfold unb_r_step. rewrite fold_left_map. reflexivity.
+  Qed.
+
+  Lemma wfold_inv : forall W m id k, sget Z.eqb id (fold_left wstep W m) = Some k ->
+    In (id, k) W \/ (~ In id (map fst W) /\ sget Z.eqb id m = Some k).
+  Proof.
+    induction W as [|[i x] W IH]; intros m id k H; [right; split; [intros [] | exact H]|].
+    cbn [fold_left] in H. apply IH in H. destruct H as [H|[N H]]; [left; right; exact H|].
+    unfold wstep in H. cbn [fst snd] in H. destruct (Z.eq_dec id i) as [->|Ni].
+    - rewrite (sget_sset_same Z.eqb Zeqb_ok) in H. inversion H. left. left. reflexivity.
+    - rewrite (sget_sset_other Z.eqb Zeqb_ok) in H by exact Ni. right. split; [|exact H].
+      intros [X|X]; [cbn in X; congruence | exact (N X)].
+  Qed.
+
+  Lemma wfold_has : forall W m id, In id (map fst W) -> sget Z.eqb id (fold_left wstep W m) <> None.
+  Proof.
+    induction W as [|[i x] W IH]; intros m id I; [destruct I|]. cbn [fold_left].
+    destruct (in_dec Z.eq_dec id (map fst W)) as [Y|N]; [apply IH; exact Y|].
+    destruct I as [E|I]; [|contradiction]. cbn in E. subst i.
+    assert (G : forall W' m', ~ In id (map fst W') -> sget Z.eqb id (fold_left wstep W' m') = sget Z.eqb id m').
+    { induction W' as [|[j y] W' IH']; intros m' N'; [reflexivity|]. cbn [fold_left]. rewrite IH'.
+      - unfold wstep. cbn [fst snd]. apply (sget_sset_other Z.eqb Zeqb_ok). intros ->. apply N'. left. reflexivity.
+      - intros Y. apply N'. right. exact Y. }
+    rewrite G by exact N. unfold wstep. cbn [fst snd]. rewrite (sget_sset_same Z.eqb Zeqb_ok). discriminate.
   Qed.
 
   Lemma ren_addr_idem : forall a, ren_addr from to (ren_addr from to a) = ren_addr from to a.
